@@ -50,7 +50,7 @@ RULE = (
     "distinct = sha1(case); non-trivial = nested requests were observed (depth >= 3) or the substitution changed the result."
 )
 ASSUMPTIONS = ["substitution cases are compared only for dictionaries on which the un-substituted graph evaluates (keys of the substituted dataset are still computed by caching consumers)"]
-FLOORS = {"types_checked": (28, 28), "method_requests_matched": (106, 106), "graph_evaluations": (4000, 30000), "body_stack_checks": (1500, 20000),
+FLOORS = {"log_emitters_checked": (9, 9), "types_checked": (28, 28), "method_requests_matched": (106, 106), "graph_evaluations": (4000, 30000), "body_stack_checks": (1500, 20000),
           "backend_calls_under_request": (8000, 100000), "option_type_validations": (20000, 100000), "substitutions_compared": (1500, 6000),
           "substitution_changed_result": (800, 3000), "implementation_calls_matched": (100000, 1000000)}
 COVER = {"substitution_inner_blocks": ["none", "cache.disabled", "logging.disabled", "mapping-form", "pair-form"]}
@@ -383,12 +383,72 @@ def substitution_case(ctx, program, o, did, tag):
         ctx.nontrivial(spec_hash(["subst", program, o, did]))
 
 
+def log_emitters(ctx):
+    """Every way the package emits a log record goes through one LogRequest: the level helpers, LogEffect attached to a
+    dataset / used in a Computation, Logged in both orders, Dataset evaluation.  A pass-through tap sees exactly one
+    request per emission with the level, logger name and message of the record that reaches the logging module."""
+    import logging as pylog
+
+    import labrea.logging as LL
+    from labrea import dataset
+    from labrea.computation import Computation
+
+    records = []
+
+    class H(pylog.Handler):
+        def emit(self, record):
+            records.append((record.levelno, record.name, record.getMessage()))
+
+    h = H()
+    root = pylog.getLogger()
+    old = root.level
+    root.addHandler(h)
+    root.setLevel(pylog.DEBUG)
+    try:
+        emitters = {}
+        for lvl in ("CRITICAL", "ERROR", "WARNING", "INFO", "DEBUG"):
+            emitters[f"helper-{lvl}"] = (lambda lvl=lvl: getattr(LL, lvl)("lvf.emit", f"msg-{lvl}", {"A": 1}), [(getattr(pylog, lvl), "lvf.emit", f"msg-{lvl}")])
+
+        def body(a=Option("A", 1)):
+            return a
+
+        d_eff = dataset.nocache(body, effects=[LL.LogEffect(pylog.WARNING, "lvf.effect", "from-effect")])
+        emitters["LogEffect-on-dataset"] = (lambda: d_eff.evaluate({"A": 2}), None)  # + the dataset's own INFO record
+        comp = Computation(Option("A", 1), LL.LogEffect(pylog.ERROR, "lvf.comp", "from-computation"))
+        emitters["LogEffect-in-Computation"] = (lambda: comp.evaluate({}), [(pylog.ERROR, "lvf.comp", "from-computation")])
+        for first in (True, False):
+            lg = LL.Logged(Option("A", 1), pylog.INFO, "lvf.logged", f"logged-first={first}", log_first=first)
+            emitters[f"Logged-log_first={first}"] = (lambda lg=lg: lg.evaluate({}), [(pylog.INFO, "lvf.logged", f"logged-first={first}")])
+        for name, (fn, want) in emitters.items():
+            del records[:]
+            with Tap() as t:
+                fn()
+            reqs = [(e[1].level, e[1].name, e[1].msg) for e in t.of("log", "return")]
+            ctx.evaluations += 1
+            ctx.count("log_emitters_checked")
+            W = {"family": "log-emitters", "emitter": name}
+            if sorted(reqs) != sorted(records):
+                ctx.violation("log-record-outside-request", f"{name}: records that reached the logging module {records} but LogRequests observed {reqs}", W)
+                return
+            if want is not None and reqs != want:
+                ctx.violation("log-request-content", f"{name}: observed {reqs}, expected {want}", W)
+                return
+            if want is None and (pylog.WARNING, "lvf.effect", "from-effect") not in reqs:
+                ctx.violation("log-request-content", f"{name}: observed {reqs}; the effect's record is missing", W)
+                return
+            ctx.nontrivial(spec_hash(["log-emitter", name]))
+    finally:
+        root.removeHandler(h)
+        root.setLevel(old)
+
+
 FEATURES_SUB = {"coalesce": False, "with": False, "domains": False, "allopts": False, "map": False}
 
 
 def run(ctx):
     if ctx.shard == 0:
         reflection(ctx)
+        log_emitters(ctx)
     else:
         # every shard re-checks reflection cheaply so that the floors are shard-independent
         pass
@@ -419,7 +479,9 @@ def run(ctx):
 
 def replay(ctx, rep):
     w = rep["witness"]
-    if "type" in w:
+    if w.get("family") == "log-emitters":
+        log_emitters(ctx)
+    elif "type" in w:
         reflection(ctx)
     elif "dataset" in w:
         substitution_case(ctx, w["program"], w["options"], w["dataset"], "replay")
